@@ -78,6 +78,9 @@ class Scenario:
         self.labels = kw.get("labels", "int")
         # explain_one(x_i=.., y_i=..) and an all-keyword constructor call instead of positional arguments
         self.keyword_calls = kw.get("keyword_calls", False)
+        # the loss is a callable object with the attributes of a river metric (bigger_is_better = True): meaningless for a
+        # plain callable, the loss is used as given (the direction is what loss_bigger_is_better says)
+        self.loss_object = kw.get("loss_object", False)
         self.shuffle_keys = kw.get("shuffle_keys", False)  # the key order of the instance dicts changes from call to call
         self.extreme = kw.get("extreme", False)            # legal but extreme random outcomes (first / last row, ...)
         self.fault_type = kw.get("fault_type", 0)          # exception class of injected faults (index into proxies.BOOMS)
@@ -246,6 +249,17 @@ def build(sc):
                            "predtypes": sorted({type(pv).__name__ for pv in y_pred.values()})})
         return val
 
+    if sc.loss_object:
+        class LossObject:
+            bigger_is_better = True
+            requires_labels = True
+
+            def __init__(self, fn):
+                self.fn = fn
+
+            def __call__(self, y_true, y_pred):
+                return self.fn(y_true, y_pred)
+        loss = LossObject(loss)
     plain_model = model
     if sc.wrap == "sklearn":
         # the model function handed to the library is a SklearnWrapper around an array-valued prediction function
@@ -656,12 +670,14 @@ def random_scenario(rng, cls=None, quickness=1, **force):
         stream.append((xs, y, n_over, upd))
     kw = dict(cls=cls, d=d, names=names, n_inner=n_inner, dynamic=dynamic, alpha=alpha, companion=rng.random() < 0.3,
               prefill=(rng.choice([0, 0, 0, 2, 5]) if storage is not None else 0),
-              positional=rng.random() < 0.15, labels=rng.choice(["int", "int", "str", "mixed"]), keyword_calls=rng.random() < 0.25, shuffle_keys=rng.random() < 0.3, extreme=rng.random() < 0.2, fault_type=rng.randrange(len(BOOMS)),
+              loss_object=rng.random() < 0.15, positional=rng.random() < 0.15, labels=rng.choice(["int", "int", "str", "mixed"]), keyword_calls=rng.random() < 0.25, shuffle_keys=rng.random() < 0.3, extreme=rng.random() < 0.2, fault_type=rng.randrange(len(BOOMS)),
               out_scale=rng.choice([1, 1, 1, F(1, 10 ** 10), F(1, 10 ** 6), 10 ** 7]),
               loss_scale=rng.choice([1, 1, 1, F(1, 10 ** 9), 10 ** 8]),
               bigger=(cls == "sage" and rng.random() < 0.3), storage=storage,
               store_targets=rng.random() < 0.5, imputer=imputer, nlab=nlab, model_seed=rng.randrange(10 ** 6),
               stream=stream, seed=rng.randrange(2 ** 31))
+    # the sign of the losses: a share of the scenarios has negative (and large negative) loss values
+    kw["loss_offset"] = rng.choice([0, 0, 0, -50, -10 ** 4, 7]) * F(kw["loss_scale"])
     kw.update(force)
     if kw.get("positional"):
         kw["shuffle_keys"] = True
